@@ -44,7 +44,8 @@ def run_pool(run, exe, mode, grid, callers, length, seed, sizes="small", tag="")
         sock = run.path("ps%d" % run._next())
         os.makedirs(sock)
         p = subprocess.Popen([exe, "pool", "-dir", sock, "-out", out, "-mode", mode, "-n", str(bs * 100000 + delay), "-workers", str(callers[i % len(callers)]),
-                              "-len", str(length), "-seed", str(seed * 100 + i), "-sizes", sizes, "-dribble", str(dribble)], stdout=subprocess.PIPE, stderr=subprocess.PIPE, text=True)
+                              "-len", str(length), "-seed", str(seed * 100 + i), "-sizes", sizes, "-dribble", str(dribble),
+                              "-keylen", str(360 if length <= 400 else 1800)], stdout=subprocess.PIPE, stderr=subprocess.PIPE, text=True)
         procs.append((p, out, "%sbs%d/d%dus/callers%d%s" % (tag, bs, delay, callers[i % len(callers)], "/dribble" if dribble else "")))
     outs = []
     for p, out, name in procs:
